@@ -684,7 +684,8 @@ func TestProp(t *testing.T) {
 			"the extracted data, subset, closed, idempotent. Non-trivial = some object is selected only because of state built earlier (bounds-selected way/relation or >=2 dependency levels) and the " +
 			"schedule releases some entity out of canonical order (sched) / the element order is not conventional (plain); filter cases with ways or relations. Distinct by case hash." +
 			" Round 9: tag keys and values containing '=', ',' and blanks, extending one another across an '=' sign." +
-			" Round 10: one case in three hands over a reader that was read to its end, or a third of the way, before.",
+			" Round 10: one case in three hands over a reader that was read to its end, or a third of the way, before." +
+			" Round 11 (thorough tier only): about one case in 4000 is a chain of 1000, 2100 or 2600 relations listed deepest first.",
 		Assumptions: []string{"schedules are explored at the granularity of the hook points (receive, keep evaluation, done, send, close)", "the sched engine depends on the build-tag verif hooks in encoding/osm"},
 		Gen:         gen,
 		Run:         run,
